@@ -7,7 +7,9 @@ Nothing here imports mako or the reference interpreter.
 Skeleton (nested tuples; weight = number of nodes)
     ("text",)
     ("try", body, hbody)                     % try / % except Boom as e / % endtry
-    ("for", body)                            % for v in range(2):  with `loop`
+    ("for", body)                            % for v in PI(i, T, 2):  with `loop` (its body starts with ${LO(loop)})
+    ("forp", body)                           % for v in PI(i, T, 2):  without `loop` anywhere in its body (no loop context)
+                                             PI is the probe in the iterable expression: raises when armed, else range(2)
     ("call", form, flags, where, dbody, content)
                                              a def declared for this call and called here
         form   "expr"  ${d(A)}     "cap"  ${capture(d, A)}     "tag"  <%call expr="d(A)">content</%call>
@@ -24,7 +26,8 @@ Final program (JSON-able)
     {"files": {uri: {"inherit": uri|None, "decls": [def..], "body": [stmt..]}}, "main": uri, "root": uri, "nprobes": n,
      "weight": w, "kinds": [...]}
     def  = {"name", "b": bool, "f": probe|None, "c": bool, "d": [probe, probe]|None, "top": bool, "decls": [def..], "body": [stmt..]}
-    stmt = ["text", s] | ["nl"] | ["probe", i] | ["try", body, hbody] | ["for", n, body] | ["lo"] | ["cb"]
+    stmt = ["text", s] | ["nl"] | ["probe", i] | ["try", body, hbody] | ["for", n, body, iterprobe] | ["forp", n, body, iterprobe]
+         | ["lo"] | ["cb"]
          | ["call", form, defname, argprobe, content|None] | ["textf", probe, s] | ["inc", uri] | ["inh", uri]
          | ["py", argprobe, probe, content] | ["ob"]        (ob: ${ob()}, a def of the file whose body is ${CB(caller)})
 """
@@ -40,7 +43,8 @@ SINGLE_FLAGS = ("", "b", "f", "c", "d")
 # enumerator
 #
 # ctx = (for_ok, nested_ok, inc_ok, inh_ok)
-#   for_ok     the enclosing callable is a file body or a top-level def (loop stack of its own: A4)
+#   for_ok     the enclosing callable is a file body or a top-level def (loop stack of its own: A4);
+#              "plain" = inside a % for that must not mention `loop`: only further plain loops are allowed
 #   nested_ok  the enclosing callable is a def body (a def can be nested in it)
 #   inc_ok     <%include> allowed here (not inside an included file: depth 1)
 #   inh_ok     the inherit point may be placed here (root body, under control lines only, at most once)
@@ -112,9 +116,12 @@ class Grammar:
                             c2 = (for_ok, nested_ok, inc_ok, False)
                         for h in self.blocks(wh, c2):
                             out.append(("try", b, h))
-        if for_ok and self.on("for"):
+        if for_ok is True and self.on("for"):
             for b in self.blocks(w - 1, ctx):
                 out.append(("for", b))
+        if for_ok and self.on("forp"):
+            for b in self.blocks(w - 1, ("plain", nested_ok, inc_ok, inh_ok)):
+                out.append(("forp", b))
         if self.on("call"):
             for form in self.forms:
                 for where in self.wheres:
@@ -152,7 +159,7 @@ class Grammar:
         return self.blocks(w, (True, False, True, True))
 
 
-NODE_KINDS = ("text", "try", "for", "call", "textf", "inc", "inh", "cb", "py")
+NODE_KINDS = ("text", "try", "for", "forp", "call", "textf", "inc", "inh", "cb", "py")
 
 
 def kinds_of(x, acc=None):
@@ -239,9 +246,14 @@ class _Fin:
             c = self.block(s[1], {"decls": scope["decls"], "ndecls": None, "infor": False, "file": scope["file"]})
             return [["py", ap, ip, c]]
         if k == "for":
+            ip = self.probe()
             sc = dict(scope, infor=True)
             body = [["lo"]] + self.block(s[1], sc)
-            return [["for", 2, body]]
+            return [["for", 2, body, ip]]
+        if k == "forp":
+            ip = self.probe()
+            sc = dict(scope, infor=False)  # no `loop` observer may be written inside: the loop would get a context
+            return [["forp", 2, self.block(s[1], sc), ip]]
         if k == "call":
             _, form, fl, where, dbody, content = s
             self.nd += 1
@@ -304,7 +316,7 @@ def _layout_file(f):
         out = []
         for s in stmts:
             k = s[0]
-            if k in ("try", "for"):
+            if k in ("try", "for", "forp"):
                 if not st["bol"]:
                     out.append(["nl"])
                 st["bol"] = True  # after the control line
@@ -320,7 +332,7 @@ def _layout_file(f):
                     b = lay_block(s[2])
                     if not st["bol"]:
                         b.append(["nl"])
-                    out.append(["for", s[1], b])
+                    out.append([k, s[1], b, s[3]])
                 st["bol"] = True  # after % endtry / % endfor
             elif k == "call" and s[4] is not None:
                 st["bol"] = False
@@ -396,8 +408,8 @@ def p_stmt(s):
         return "${CB(caller)}"
     if k == "try":
         return "% try:\n" + p_block(s[1]) + "% except Boom as e:\n[x${e.args[0]}]" + p_block(s[2]) + "% endtry\n"
-    if k == "for":
-        return "% for v in range(" + str(s[1]) + "):\n" + p_block(s[2]) + "% endfor\n"
+    if k in ("for", "forp"):
+        return "%% for v in PI(%d, T, %d):\n" % (s[3], s[1]) + p_block(s[2]) + "% endfor\n"
     if k == "call":
         _, form, name, ap, c = s
         arg = "P(%d, T)" % ap
